@@ -213,7 +213,7 @@ PROPS = {
         "level": "model_checking",
         "engine": "explore (bounded-exhaustive enumeration)",
         "technique": "bounded-exhaustive enumeration of requests (all combinations of <=2 deviations from a valid base per endpoint kind) and of schema x argument values, on the real handlers and the real client transport over a wire-faithful in-process round trip, against a reference predicate of the documented preconditions",
-        "claim": "(a) three endpoint kinds (stateless 2026-07-28, stateful legacy, SSE message endpoint) x every combination of <=2 deviations over Host/listener address, Content-Type (7 forms), Accept (8), body size around the limit (with Content-Length and with chunked transfer encoding), protocol-version header, Mcp-Method/Mcp-Name/Mcp-Param-* (absent, different, case-variant, base64-wrapped, malformed base64) and _meta version: the message reaches the server iff no precondition is violated; otherwise a 4xx (403 host, 415 content type, 413 size, -32020 for header mismatches) and nothing dispatched; (b) x-mcp-header annotations at nesting depth 1..5 with annotated siblings x 14 string values (empty, padded, non-ASCII, control, sentinel-looking), safe-range integers, booleans, absent members: every call made through the SDK client is accepted and the tool sees exactly the arguments sent; (c) one handler receiving 2-3 connections on different local addresses (127.0.0.1, [::1], a LAN address) with loopback and foreign Host values in every order: each request is judged by the address it arrived on",
+        "claim": "(a) three endpoint kinds (stateless 2026-07-28, stateful legacy, SSE message endpoint) x every combination of <=2 deviations over Host/listener address, Content-Type (7 forms), Accept (8), body size around the limit (with Content-Length and with chunked transfer encoding), protocol-version header, Mcp-Method/Mcp-Name/Mcp-Param-* (absent, different, case-variant, base64-wrapped, malformed base64) and _meta version: the message reaches the server iff no precondition is violated; otherwise a 4xx (403 host, 415 content type, 413 size, -32020 for header mismatches) and nothing dispatched; (b) x-mcp-header annotations at nesting depth 1..5 with annotated siblings x 14 string values (empty, padded, non-ASCII, control, sentinel-looking), safe-range integers, booleans, absent members: every call made through the SDK client is accepted and the tool sees exactly the arguments sent; (c) one handler receiving 2-3 connections on different local addresses (127.0.0.1, [::1], a LAN address) with loopback and foreign Host values in every order: each request is judged by the address it arrived on; (d) every ClientSession API call (12 operations) against the SDK's own stateless (2026-07-28) and stateful (legacy) streamable handlers: no POST the client produces is answered 4xx (operations the negotiated protocol does not have excepted) and the session stays usable",
         "note": "requests are parsed with http.ReadRequest from raw text and client requests are serialised/re-parsed, so header trimming/canonicalisation is the real wire behaviour; more than 2 simultaneous deviations and values outside the alphabets are outside the bound; null-valued annotated arguments are not schema-valid and not enumerated",
         "parts": [
             {"pkg": "mcp", "mode": "plain", "test": "TestVerifC12", "shards": 16},
